@@ -1,7 +1,7 @@
 """Single source for MANIFEST.json (python tools_manifest.py regenerates it)."""
 SOURCE_COMMITS = []  # no hook commits; fix: commits are listed in known_findings.json
 ENGINES = [
- {"name": "vworld", "path": "vp/vworld.py", "serves_properties": ["C01", "C05", "C06", "C07"], "kind_free_text": "E3: virtual-time asyncio loop (advancing clock, jitter tape on timers, FIFO fault-tape network, fake datagram transports) with the library's own GeckoSimulator driven in-process as the peer; recording queue/lock (vp/recording.py)"},
+ {"name": "vworld", "path": "vp/vworld.py", "serves_properties": ["C01", "C05", "C06", "C07", "C15", "C17"], "kind_free_text": "E3: virtual-time asyncio loop (advancing clock, jitter tape on timers, FIFO fault-tape network, fake datagram transports) with the library's own GeckoSimulator driven in-process as the peer; recording queue/lock (vp/recording.py)"},
  {"name": "stepped", "path": "vp/stepped.py", "serves_properties": ["C01", "C05"], "kind_free_text": "E4: the real GeckoUdpSocket._thread_func stepped on the harness thread against a scripted mock socket with virtual time and inert threads"},
  {"name": "refcodec", "path": "vp/refcodec.py", "serves_properties": ["C04"], "kind_free_text": "E2: reference codec of every in.touch2 message as explicit byte concatenations + index-based un-framer, independent of driver/protocol/*.py"},
  {"name": "packs", "path": "vp/packs.py", "serves_properties": ["C02", "C03", "C14", "C18"], "kind_free_text": "E1: enumeration of the 164 shipped table modules / 895 combinations and a reference item decoder/encoder built from the recorded constructor arguments of the generated tables (independent of accessor.py)"},
@@ -58,6 +58,16 @@ CHECKS = [
   "text": "Generated arrival scripts of valid, unknown, junk, late, mis-addressed (source, destination, both) and malformed-framing datagrams are injected into a connected client while generated requests are outstanding, the client event handler suspends for generated durations and timers are jittered; the recorded queue log must show exactly one pop per put, by the catch-all task or by a task whose verb family accepts the datagram, no consumer task may die, head residence stays within the stated bound, the packet consumer may re-queue exactly the contents of correctly addressed well-formed packets, and block, RF/watercare events and acknowledgements must equal what the consumed, correctly addressed datagrams imply.",
   "ref": "DESIGN.md section 3 C07",
   "note": "Jitter-tape schedule family; verb table written from the protocol description; bound 6 x (poll + J) (analytic worst case of the repaired catch-all consumer: 5 intervals + 3J)."},
+ {"id": "C15", "engine": "vworld", "level": "exploration",
+  "technique": "property-based testing over peers, reply timing/duplication, filters and schedules on a virtual clock; validity predicates on the returned list, return time and resources",
+  "text": "GeckoAsyncLocator.discover() runs against 0..6 in-process simulators with generated identifiers, latin-1 names (incl. '|', empty, non-ASCII), reply multiplicity 0..4 and hello latency 0..12 s, with no filter, an address, a present/absent identifier or both, under timer jitter and suspensions of the client's discovered-spa handler; the list must contain each spa that could have been consumed in time exactly once (only the requested identifier when one is given) with identifier, name and address intact, every announced spa must be listed, the return time must respect 'requested spa answered', 'initial wait + any answer' and the discovery timeout (with the stated polling tolerance), the endpoint must be closed and the LOC tasks finished on return; the threaded locator's de-duplication is fed generated reply sequences.",
+  "ref": "DESIGN.md section 3 C15",
+  "note": "The hello consumer takes one datagram per polling interval: expected visibility time is computed from the recorded delivery times accordingly."},
+ {"id": "C17", "engine": "vworld", "level": "exploration",
+  "technique": "property-based testing over switch/sleep histories and schedules on a virtual clock; oracle = the configuration classes by reflection, wake-time rules, reference decode of pump/blower states",
+  "text": "Generated histories of 1..12 looping config-aware sleepers and 1..8 mode switches (instants chosen to coincide with sleeper starts and expiries) under timer jitter: after every switch every upper-case member of the three configuration classes (collected by reflection, not from CONFIG_MEMBERS) equals the chosen table, a sleeper pending at a switch wakes at the switch instant, no sleeper sleeps longer than asked (+ its timer latency), none stays asleep; a real GeckoAsyncFacade on shipped snapshot configurations gets generated pump/blower/light state assignments as block updates and must select active exactly when a pump or blower is on (lights must not count).",
+  "ref": "DESIGN.md section 3 C17",
+  "note": "A switch presupposes a started config-aware sleep (asserted by the code itself). The facade oracle applies from the first pump/blower state change on (construction does not select a table)."},
 ]
 NOT_APPLICABLE = [
  {
@@ -82,14 +92,6 @@ NOT_APPLICABLE = [
  },
  {
   "property_id": "C13",
-  "reason": "check not built yet in this session (work in progress; see DESIGN.md section 3)"
- },
- {
-  "property_id": "C15",
-  "reason": "check not built yet in this session (work in progress; see DESIGN.md section 3)"
- },
- {
-  "property_id": "C17",
   "reason": "check not built yet in this session (work in progress; see DESIGN.md section 3)"
  },
  {
